@@ -68,6 +68,17 @@ static bool set_comp_type(zckCtx *zck, ssize_t type) {
         return false;
     }
 
+    /* A type we do not support must leave the current settings untouched */
+    if(type != ZCK_COMP_NONE
+#ifdef ZCHUNK_ZSTD
+       && type != ZCK_COMP_ZSTD
+#endif
+      ) {
+        set_error(zck, "Unsupported compression type: %s",
+                  zck_comp_name_from_type(type));
+        return false;
+    }
+
     /* Set all values to 0 before setting compression type */
     char *dc_data = comp->dc_data;
     size_t dc_data_loc = comp->dc_data_loc;
